@@ -8,25 +8,45 @@ Require Import VerifGen.Leaf VerifGen.GenTac.
 From Coq Require Import ZArith NArith Bool Lia ZifyN ZifyNat ZifyBool.
 Ltac Zify.zify_post_hook ::= Z.div_mod_to_equations.
 
-(* the loop, once the first report has initialised the running range (i > 0) *)
-Lemma gen_compute_ranges_loop_spec : forall l i cur acc,
-  (0 < i)%Z -> gen_compute_ranges_loop l i cur acc = compute_ranges_from cur acc l.
-Proof.
-  induction l as [|r l IH]; intros i [cs ce] acc Hi; gen_step gen_compute_ranges_loop; cbn [compute_ranges_from];
-    [reflexivity|].
-  destruct r as [rs re]. unfold r_start, r_end, succ64. autounfold with gen. cbv zeta. cbn [fst snd].
-  destruct (Z.eqb_spec i 0); [lia|].
-  destruct (N.eqb (add64 ce 1) rs); [apply IH; lia|].
-  destruct (N.ltb rs ce); [reflexivity|]. apply IH; lia.
-Qed.
-
-(* (a) generated = modelled, on every list of ranges *)
+(* (a) generated = modelled, on every list of ranges.  The loop (found through its call marker) carries the index,
+   the running range and the finished ranges; once the first report has initialised the running range (i > 0) it is
+   compute_ranges_from. *)
 Theorem gen_compute_ranges_eq : forall l, gen_compute_ranges l = compute_ranges l.
 Proof.
-  intros [|[rs re] l]; unfold gen_compute_ranges, compute_ranges; cbv zeta; cbn [length]; [reflexivity|].
-  destruct (Z.eqb_spec (Z.of_nat (S (length l))) 0); [lia|].
-  gen_step gen_compute_ranges_loop. autounfold with gen. cbv zeta. cbn [fst snd Z.eqb].
-  apply gen_compute_ranges_loop_spec. lia.
+  intros l0. gen_open.
+  first
+  [ (* A: one loop over all reports, the first one recognised by its index *)
+    lazymatch goal with
+    | |- context [gen_loop4 ?f _ _ _ _] =>
+        assert (L : forall l i cur acc, (0 < i)%Z -> f l i cur acc = compute_ranges_from cur acc l)
+    end;
+    [ induction l as [|r l IH]; intros i [cs ce] acc Hi;
+        lazymatch goal with |- ?lhs = _ => let h := gen_head lhs in cbn [h]; cbv zeta end;
+        cbn [compute_ranges_from]; [reflexivity|];
+      destruct r as [rs re]; unfold r_start, r_end, succ64; gen_open;
+      repeat (gen_case; try solve [exfalso; gen_lin]); try reflexivity; try (apply IH; lia)
+    | destruct l0 as [|[rs re] l]; unfold compute_ranges; cbn [length];
+        [repeat (gen_case; try solve [exfalso; gen_lin]); reflexivity|];
+      unfold gen_loop4;
+      repeat (gen_case; try solve [exfalso; gen_lin]);
+      lazymatch goal with |- ?lhs = _ => let h := gen_head lhs in cbn [h]; cbv zeta end;
+      gen_open; cbn [Z.eqb]; apply L; lia ]
+  | (* B: the first report taken by index, the loop over the rest (reports[1:]) *)
+    lazymatch goal with
+    | |- context [gen_loop3 ?f _ _ _] =>
+        assert (L : forall l cur acc, f l cur acc = compute_ranges_from cur acc l)
+    end;
+    [ induction l as [|r l IH]; intros [cs ce] acc;
+        lazymatch goal with |- ?lhs = _ => let h := gen_head lhs in cbn [h]; cbv zeta end;
+        cbn [compute_ranges_from]; [reflexivity|];
+      destruct r as [rs re]; unfold r_start, r_end, succ64; gen_open;
+      repeat (gen_case; try solve [exfalso; gen_lin]); try reflexivity; try apply IH
+    | destruct l0 as [|[rs re] l]; unfold compute_ranges; cbn [length];
+        [repeat (gen_case; try solve [exfalso; gen_lin]); reflexivity|];
+      unfold gen_loop3; autounfold with gen_pre; cbn [length nth_error skipn Z.to_nat Z.ltb Z.compare orb];
+      repeat (gen_case; try solve [exfalso; gen_lin]; try discriminate);
+      repeat match goal with H : Some _ = Some _ |- _ => inversion H; subst; clear H end;
+      cbn [fst snd]; try apply L; exfalso; lia ] ].
 Qed.
 Print Assumptions gen_compute_ranges_eq.
 
